@@ -36,7 +36,7 @@ EXPLANATION = (
     "it created itself or of values that cannot be a shared literal. (R5) no store in real2exp overwrites a character a "
     "dominating test identified as '.'. (R6) all paths of breakLongStr (loops unrolled 0..2, callee maybeBreak inlined) emit an "
     "even, non-zero number of quote characters; the zero-iteration path must be excluded by an explicit empty-string test. "
-    "Not decided: token-for-token equivalence, parenthesisation and precedence, wrapping at every line length, idempotence "
+    "(R7) operators routed to the parenthesis-eliding printer are associative. (R8) the scanner collapses '' to ' and the printer of string literals writes the pair back and prints only the escaped copy. (R9) every caller of ALGargs_out prints the parameter list under a test of the list. (R10) the group-break condition of ALGargs_out, evaluated for all combinations of previous/current values of the remembered properties (VAR-ness, type), is true exactly when one differs. Not decided: token-for-token equivalence, parenthesisation and precedence, wrapping at every line length, idempotence "
     "— behaviour of the printer on values.")
 from engines import call_args
 
